@@ -1,0 +1,11 @@
+//go:build verif
+// +build verif
+
+package caching
+
+import "sync/atomic"
+
+// VerifLen reports the number of programs held by the cache.
+func (self *ProgramCache) VerifLen() int {
+	return int(atomic.LoadUint64(&(*_ProgramMap)(atomic.LoadPointer(&self.p)).n))
+}
